@@ -592,6 +592,34 @@ def b_str_join(ex, recv, pos, kws, st):
     return loops.str_join(ex, recv, pos[0], st)
 
 
+def b_str_format(ex, recv, pos, kws, st):
+    import string as _string
+    z = z3.simplify(M.sval(ex.term(recv, st)))
+    if not z3.is_string_value(z):
+        raise Unsupported("str.format on a non-literal format string")
+    fmt = z.as_string()
+    parts = []
+    auto = 0
+    for lit, field, spec, conv in _string.Formatter().parse(fmt):
+        if lit:
+            parts.append(z3.StringVal(lit))
+        if field is None:
+            continue
+        if spec or conv:
+            raise Unsupported("format spec / conversion in str.format")
+        if field == "":
+            v = pos[auto]
+            auto += 1
+        elif field.isdigit():
+            v = pos[int(field)]
+        else:
+            v = kws[field]
+        parts.append(ex.to_text(v, st, "s"))
+    zz = parts[0] if len(parts) == 1 else (z3.Concat(*parts) if parts else z3.StringVal(""))
+    zz = ex.named_concat(st, z3.simplify(zz))
+    return [(st, T(M.StrV(zz), "str"))]
+
+
 def b_str_encode(ex, recv, pos, kws, st):
     z = ex.term(recv, st)
     _trust(ex, "str.encode() of an ASCII string is the same code-unit sequence")
